@@ -216,6 +216,92 @@ theorem gc_preserves_abs (s : St) : abs (gc s) = abs s := by
   unfold gc
   split <;> simp [abs, List.filter_filter]
 
+/-! ### deadlines: a live waiter whose deadline is reached gets TimeoutError -/
+
+theorem mem_insTimer {t u : Timer} {l : List Timer} : t ∈ insTimer u l ↔ t = u ∨ t ∈ l := by
+  induction l with
+  | nil => simp [insTimer]
+  | cons a l ih =>
+    simp only [insTimer]
+    split
+    · simp
+    · simp [ih]
+      constructor
+      · rintro (h | h | h) <;> simp [h]
+      · rintro (h | h | h) <;> simp [h]
+
+theorem mem_sortTimers {t : Timer} {l : List Timer} : t ∈ sortTimers l ↔ t ∈ l := by
+  unfold sortTimers
+  have key : ∀ (acc : List Timer), t ∈ l.foldl (fun acc t => insTimer t acc) acc ↔ t ∈ acc ∨ t ∈ l := by
+    induction l with
+    | nil => simp
+    | cons a l ih =>
+      intro acc
+      simp only [List.foldl_cons, ih, mem_insTimer, List.mem_cons]
+      constructor
+      · rintro ((h | h) | h) <;> simp [h]
+      · rintro (h | h | h) <;> simp [h]
+  rw [key]; simp
+
+theorem minTimer_mem {ts : List Timer} {t : Timer} (h : minTimer ts = some t) : t ∈ ts := by
+  induction ts generalizing t with
+  | nil => simp [minTimer] at h
+  | cons a ts ih =>
+    simp only [minTimer] at h
+    split at h
+    · simp at h; simp [h]
+    · rename_i u hu
+      split at h
+      · simp at h; subst h; exact List.mem_cons_of_mem _ (ih hu)
+      · simp at h; simp [h]
+
+theorem onTimeout_sets {s : St} {w : Nat} (hp : isPend s.futs w = true) :
+    (onTimeout s w).1.futs[w]? = some .timeout := by
+  unfold onTimeout
+  simp only [hp, if_true, gc_futs]
+  simp [isPend_lt hp]
+
+theorem onTimeout_other {s : St} {w x : Nat} (hne : x ≠ w) :
+    isPend (onTimeout s w).1.futs x = isPend s.futs x := by
+  unfold onTimeout
+  split
+  · simp only [gc_futs]; exact isPend_set_ne hne
+  · simp only [gc_futs]
+
+theorem fireList_sets {s : St} {ts : List Timer} {t : Timer} (hm : t ∈ ts) (hp : isPend s.futs t.2 = true) :
+    (fireList s ts).1.futs[t.2]? = some .timeout := by
+  induction ts generalizing s with
+  | nil => simp at hm
+  | cons a ts ih =>
+    simp only [fireList]
+    by_cases e : a.2 = t.2
+    · have h1 : (onTimeout s a.2).1.futs[t.2]? = some .timeout := by rw [e]; exact onTimeout_sets hp
+      exact (stable_fireList _ ts).2 _ _ h1 (by simp)
+    · have hm' : t ∈ ts := by
+        rcases List.mem_cons.mp hm with rfl | h
+        · exact absurd rfl e
+        · exact h
+      exact ih hm' (by rw [onTimeout_other (Ne.symm e)]; exact hp)
+
+/-- `fire`: the waiter owning the earliest deadline, if still pending, fails with `TimeoutError` -/
+theorem deadline_times_out (s : St) (t : Timer) (hm : minTimer s.timers = some t)
+    (hp : isPend s.futs t.2 = true) : (step s .fire).1.futs[t.2]? = some .timeout := by
+  have hmem := minTimer_mem hm
+  simp only [step, advance, hm, settle]
+  show (purge (fireDue (purge _)).1).futs[t.2]? = _
+  simp only [purge, fireDue]
+  apply fireList_sets
+  · unfold dueTimers
+    rw [mem_sortTimers]
+    simp only [List.mem_filter]
+    refine ⟨⟨hmem, by simpa using hp⟩, ?_⟩
+    simp
+    omega
+  · exact hp
+
+example : (step (after .sem 0 0 [.acquire (some 4), .acquire (some 2)]) .fire).1.futs[1]? = some .timeout := by
+  decide
+
 /-! ### refinement to the sequential specification (stated, not proved: tie-only, see docs/C33.md) -/
 
 /-- the property only says that a refused release *raises*: both exception kinds are identified -/
